@@ -463,11 +463,13 @@ def typed_local(e):
 class C03(Prop):
     id = "C03"
     title = "Compiled bytecode computes exactly what LPC semantics define"
-    lean_modules = ["NV.C03.Props", "NV.C03.Props2", "NV.C03.Props3", "NV.C03.Props4", "NV.C03.Props5", "NV.C03.Witness"]
+    lean_modules = ["NV.C03.Props", "NV.C03.Props2", "NV.C03.Props3", "NV.C03.Props4", "NV.C03.Props5", "NV.C03.Props6", "NV.C03.Witness"]
     theorems = []          # filled below
     witness_theorems = []
-    consts = [("oldRangeBehavior", "NV_OLD_RANGE"), ("switchCaseSize", "SWITCH_CASE_SIZE")]
-    const_headers = ["lib/efuns/options.h", "src/interpret.h"]
+    consts = [("oldRangeBehavior", "NV_OLD_RANGE"), ("switchCaseSize", "SWITCH_CASE_SIZE"),
+              ("mapHashTableSize", "MAP_HASH_TABLE_SIZE"), ("mapFillPercent", "FILL_PERCENT"),
+              ("mapMaxTableSize", "MAX_TABLE_SIZE"), ("mapHashOf4096", "MAP_POINTER_HASH(4096)")]
+    const_headers = ["lib/efuns/options.h", "src/interpret.h", "lib/lpc/mapping.h"]
     const_prelude = "#ifdef OLD_RANGE_BEHAVIOR\n#define NV_OLD_RANGE 1\n#else\n#define NV_OLD_RANGE 0\n#endif\n"
     quick_n = 1200
     thorough_n = 6000
@@ -560,7 +562,8 @@ class C03(Prop):
             a, b = I(pick_int(rng)), I(pick_int(rng))
         else:
             a, b = pick_scalar(rng), pick_scalar(rng)
-            if rng.chance(1, 8):
+            if rng.chance(1, 8) and op not in ("eq", "ne"):
+                # == / != on arrays compare identity (all empty arrays are one shared object): outside the covered core
                 a, b = small_arr(rng), small_arr(rng)
         fns = self.spellings_bin(op, a, b, rng)
         return make_case(cid, fns, defines=["#define M_OP(x, y) ((x) %s (y))" % BINOPS[op]],
@@ -1101,8 +1104,153 @@ class C03(Prop):
                    pre + [("expr", ("asg", L(C), I(0))), ("foreach", L(B), L(A), ("expr", ("aop", "add", L(C), L(B)))), ("ret", L(C))]]
         return make_case(cid, fns, meta={"origin": "generated", "family": "calls"})
 
+    # ---- mapping algebra: sizes around every growth threshold, keys whose hashes spread over the table ------------
+    # lib/lpc/mapping.c: bucket = (key bits >> 4) & table_size; the table starts with MAP_HASH_TABLE_SIZE buckets and doubles
+    # (growMap) when FILL_PERCENT of its buckets are occupied
+    MAP_SIZES = [1, 4, 5, 6, 7, 8, 9, 11, 12, 13, 14, 24, 25, 26, 27, 28, 50, 51, 52, 53, 54, 101, 102, 103, 104, 105, 205, 208, 211]
+
+    def map_sizes(self):
+        """sizes around every growth threshold, from the constants regenerated into NV/Gen/C03.lean (stage A)"""
+        import re
+        try:
+            txt = open(os.path.join(E.LEAN, "NV/Gen/C03.lean")).read()
+            t0 = int(re.search(r"def mapHashTableSize : Nat := (\d+)", txt).group(1))
+            fill = int(re.search(r"def mapFillPercent : Nat := (\d+)", txt).group(1))
+        except Exception:
+            return self.MAP_SIZES
+        out = {1, t0 // 2}
+        t = t0
+        while t <= 256:
+            thr = t * fill // 100          # occupied buckets at which growMap is called
+            out.update(x for x in (thr - 2, thr - 1, thr, thr + 1, thr + 2, t - 1, t, t + 1) if x > 0)
+            t *= 2
+        return sorted(out)
+
+    def map_keyfn(self, rng):
+        """key as a function of the loop index (an expression over `ix`), with hashes that spread"""
+        kind = rng.weighted([("i16", 4), ("big", 3), ("neg", 2), ("flt", 3), ("str", 4), ("odd", 2), ("mix", 2)])
+        off = rng.choice([0, 3, 16, 48, 112])
+        step = rng.choice([16, 16, 48, 80, 272])
+        if kind == "i16":
+            return kind, (lambda ix: ("bin", "add", ("bin", "mul", ix, I(step)), I(off)))
+        if kind == "big":
+            base = rng.choice([65536, 2 ** 32, 2 ** 40 + 16, 2 ** 62])
+            return kind, (lambda ix: ("bin", "add", I(base), ("bin", "mul", ix, I(step))))
+        if kind == "neg":
+            return kind, (lambda ix: ("bin", "sub", I(-5 - off), ("bin", "mul", ix, I(step))))
+        if kind == "flt":
+            f = rng.choice([0.37, 0.1, 1.7, 1000.3])
+            return kind, (lambda ix: ("bin", "add", ("bin", "mul", ix, Fl(f)), Fl(0.01)))
+        if kind == "str":
+            pre = rng.choice([b"s", b"key_", b"", b"\xc3\xa9"])
+            return kind, (lambda ix: ("bin", "add", S(pre), ix))
+        if kind == "odd":
+            return kind, (lambda ix: ("bin", "add", ("bin", "mul", ix, I(7)), I(off)))
+        # alternating ints and strings
+        return kind, (lambda ix: ("cond", ("bin", "band", ix, I(1)), ("bin", "add", S(b"m"), ix), ("bin", "mul", ix, I(step))))
+
+    def fam_mapalg(self, rng, cid):
+        kname, K = self.map_keyfn(rng)
+        sizes = self.map_sizes()
+        n1 = rng.choice(sizes)
+        n2 = rng.choice(sizes)
+        if rng.chance(1, 3):
+            n1, n2 = n2, min(n1, n2)          # add_mapping copies the larger operand: make both orders frequent
+        lo2 = rng.choice([0, n1, max(n1 - 3, 0), n1 // 2, n1 + 5])
+        top = max(n1, lo2 + n2) + 2
+        V1 = lambda ix: ("bin", "add", ix, I(1000))
+        V2 = lambda ix: ("bin", "add", ix, I(5000))
+        loop = lambda var, lo, hi, body: ("for", ("expr", ("asg", L(var), I(lo))), ("bin", "lt", L(var), I(hi)),
+                                          ("expr", ("inc", "postinc", L(var))), body)
+        build = lambda m, lo, hi, V: loop(LI, lo, hi, ("expr", ("asg", ("idx", m, K(L(LI))), V(L(LI)))))
+        # read back EVERY key of both operands (and two that are in neither) through m[k]
+        read = lambda m: [("expr", ("asg", L(D), Arr([]))),
+                          loop(LJ, 0, top, ("expr", ("aop", "add", L(D), Arr([("idx", m, K(L(LJ)))]))))]
+        init = [("expr", ("asg", L(A), Map([]))), build(L(A), 0, n1, V1),
+                ("expr", ("asg", L(B), Map([]))), build(L(B), lo2, lo2 + n2, V2)]
+        small = n1 + n2 <= 16
+
+        def finish(cvar, extra=None):
+            out = read(cvar) + [("expr", ("asg", G(1), L(D)))] + read(L(A)) + [("expr", ("asg", G(2), L(D)))] + read(L(B))
+            items = [("efun", "sizeof", [cvar]), G(1), ("efun", "sizeof", [L(A)]), G(2), ("efun", "sizeof", [L(B)]), L(D)]
+            if small:
+                items.append(cvar)
+            return out + [("ret", Arr(items))]
+        op = rng.weighted([("add", 6), ("delete", 3), ("compose", 2), ("self", 1)])
+        if op == "add":
+            fns = [init + [("expr", ("asg", L(C), ("bin", "add", L(A), L(B))))] + finish(L(C)),
+                   init + [("expr", ("asg", L(C), ("bin", "add", L(A), Map([])))), ("expr", ("aop", "add", L(C), L(B)))] + finish(L(C)),
+                   init + [("expr", ("asg", L(C), Map([]))), build(L(C), 0, n1, V1), build(L(C), lo2, lo2 + n2, V2)] + finish(L(C)),
+                   init + [("expr", ("asg", L(C), ("efun", "allocate_mapping", [I(rng.choice([0, 1, 8, 9, 100, n1 + n2]))]))),
+                           build(L(C), 0, n1, V1), build(L(C), lo2, lo2 + n2, V2)] + finish(L(C)),
+                   init + [("expr", ("asg", G(0), ("bin", "add", L(A), Map([])))), ("expr", ("aop", "add", G(0), L(B)))] + finish(G(0)),
+                   # the other operand order: the left values survive on common keys
+                   init + [("expr", ("asg", L(C), ("bin", "add", L(B), L(A))))] + finish(L(C)),
+                   init + [("expr", ("asg", L(C), Map([]))), build(L(C), lo2, lo2 + n2, V2), build(L(C), 0, n1, V1)] + finish(L(C)),
+                   # a chain of three
+                   init + [("expr", ("asg", L(C), ("bin", "add", ("bin", "add", L(A), L(B)), L(A))))] + finish(L(C))]
+            same = [[0, 1, 2, 3, 4], [5, 6]]
+            if n1 + n2 <= 18 and kname != "mix":
+                # mapping literals (load_mapping_from_aggregate, keys folded by the compiler)
+                lit1 = Map([(K(I(q)), V1(I(q))) for q in range(n1)])
+                lit2 = Map([(K(I(q)), V2(I(q))) for q in range(lo2, lo2 + n2)])
+                fns.append([("expr", ("asg", L(A), lit1)), ("expr", ("asg", L(B), lit2)),
+                            ("expr", ("asg", L(C), ("bin", "add", L(A), L(B))))] + finish(L(C)))
+                fns.append([("expr", ("asg", L(A), lit1)), ("expr", ("asg", L(B), lit2)),
+                            ("expr", ("asg", L(C), ("bin", "add", lit1, lit2)))] + finish(L(C)))
+                same[0] += [8, 9]
+        elif op == "delete":
+            st = rng.choice([2, 3, 5])
+            dele = lambda m: loop(LI, 0, top, ("if", ("bin", "eq", ("bin", "mod", L(LI), I(st)), I(0)),
+                                              ("expr", ("efun", "map_delete", [m, K(L(LI))])), "nop"))
+            buildskip = lambda m, lo, hi, V: loop(LI, lo, hi, ("if", ("bin", "ne", ("bin", "mod", L(LI), I(st)), I(0)),
+                                                               ("expr", ("asg", ("idx", m, K(L(LI))), V(L(LI)))), "nop"))
+            fns = [init + [("expr", ("asg", L(C), ("bin", "add", L(A), L(B)))), dele(L(C))] + finish(L(C)),
+                   init + [("expr", ("asg", L(C), Map([]))), buildskip(L(C), 0, n1, V1), buildskip(L(C), lo2, lo2 + n2, V2)] + finish(L(C)),
+                   init + [("expr", ("asg", L(C), ("bin", "add", L(A), Map([])))), dele(L(C)), ("expr", ("aop", "add", L(C), L(B))), dele(L(C))] + finish(L(C)),
+                   # delete everything, then refill through +=
+                   init + [("expr", ("asg", L(C), ("bin", "add", L(A), Map([])))),
+                           loop(LI, 0, top, ("expr", ("efun", "map_delete", [L(C), K(L(LI))]))), ("expr", ("aop", "add", L(C), L(B)))] + finish(L(C)),
+                   init + [("expr", ("asg", L(C), ("bin", "add", L(B), Map([]))))] + finish(L(C))]
+            same = [[0, 1, 2], [3, 4]]
+        elif op == "compose":
+            # b maps the VALUES of a (1000 + i) to something: a * b
+            init2 = [("expr", ("asg", L(A), Map([]))), build(L(A), 0, n1, V1), ("expr", ("asg", L(B), Map([]))),
+                     loop(LI, lo2, lo2 + n2, ("expr", ("asg", ("idx", L(B), V1(L(LI))), K(L(LI)))))]
+            fns = [init2 + [("expr", ("asg", L(C), ("bin", "mul", L(A), L(B))))] + finish(L(C)),
+                   init2 + [("expr", ("asg", L(C), ("bin", "add", L(A), Map([])))), ("expr", ("aop", "mul", L(C), L(B)))] + finish(L(C)),
+                   init2 + [("expr", ("asg", L(C), Map([]))),
+                            loop(LI, max(lo2, 0), min(n1, lo2 + n2), ("expr", ("asg", ("idx", L(C), K(L(LI))), K(L(LI)))))] + finish(L(C))]
+            same = [[0, 1, 2]]
+        else:
+            fns = [init + [("expr", ("asg", L(C), ("bin", "add", L(A), L(A))))] + finish(L(C)),
+                   init + [("expr", ("asg", L(C), ("bin", "add", L(A), Map([])))), ("expr", ("aop", "add", L(C), L(C)))] + finish(L(C)),
+                   init + [("expr", ("asg", L(C), ("bin", "add", L(A), Map([]))))] + finish(L(C))]
+            same = [[0, 1, 2]]
+        return make_case(cid, fns, same=same, meta={"origin": "generated", "family": "mapalg", "keys": kname})
+
+    def fam_maptrace(self, rng, cid):
+        """unit-style: random histories of m[k] = v / map_delete / allocate_mapping / += / + on two real mapping_t tables
+        with integer keys; the harness dumps the bucket layout after every step and `nvdrive` reproduces it with the
+        hash-table model of HashMap.lean"""
+        pool = [16 * j + rng.below(16) for j in range(rng.choice([8, 20, 40, 90, 300]))]
+        pool += [-16 * j - 5 for j in range(12)] + [2 ** 32 + 16 * j for j in range(6)] + [2 ** 62, -2 ** 63, 2 ** 63 - 1, 0, 1, 15]
+        toks = []
+        if rng.chance(1, 3):
+            toks.append("%sn:%d" % (rng.choice("ab"), rng.choice([0, 1, 8, 9, 15, 16, 17, 100, 128])))
+        for _ in range(rng.choice([6, 12, 25, 60, 140])):
+            k = rng.weighted([("i", 12), ("d", 3), ("abs", 1), ("plus", 1)])
+            if k == "i":
+                toks.append("%si:%d:%d" % (rng.weighted([("a", 3), ("b", 2)]), rng.choice(pool), rng.range(1, 999)))
+            elif k == "d":
+                toks.append("%sd:%d" % (rng.choice("ab"), rng.choice(pool)))
+            else:
+                toks.append(k)
+        toks += ["plus", "abs", "plus"]
+        return E.Case(cid, ["maptrace " + " ".join(toks)], {"origin": "generated", "family": "maptrace"})
+
     FAMS = [("fam_binop", 9), ("fam_unop", 2), ("fam_incdec", 3), ("fam_index", 5), ("fam_range", 5), ("fam_lvalue", 6),
-            ("fam_switch", 6), ("fam_loop", 6), ("fam_assignop", 5), ("fam_literal", 2), ("fam_rewrite", 4), ("fam_macro", 3), ("fam_calls", 5)]
+            ("fam_switch", 6), ("fam_loop", 6), ("fam_assignop", 5), ("fam_literal", 2), ("fam_rewrite", 4), ("fam_macro", 3), ("fam_calls", 5), ("fam_mapalg", 7), ("fam_maptrace", 5)]
 
     def generate(self, rng, n, tier):
         out = []
@@ -1194,6 +1342,9 @@ PROP.theorems = ["NV.C03." + t for t in (
     "extract_agrees_repaired", "extract_quirks_irrelevant", "extract_agrees_partial",
     "fixup_spec", "bsearch_good", "log2floor_spec", "switch_sorted_agrees", "good_unique",
     "for_eq_while", "loop_forms_agree",
+    "HT.grow_lookup", "HT.grow_wf", "HT.insert_lookup_same", "HT.insert_lookup_other", "HT.insert_wf",
+    "HT.delete_lookup_same", "HT.delete_lookup_other", "HT.delete_wf", "HT.insert_refines", "HT.merge_refines",
+    "HT.mapping_lookup_after_insert", "HT.empty_refines",
     "wrap_id", "wrap_range", "tdiv_range", "tmod_range", "idiv_eq", "imod_eq")]
 PROP.witness_theorems = ["NV.C03." + t for t in (
     "witness_num_opeq_real", "witness_addeq_num_str", "assignop_agrees_Full_false", "witness_buf_store_zero",
